@@ -19,7 +19,8 @@ def own_deadlock_sites(ctx, rule, fns=None):
     facts = ctx.facts
     roles.bind(facts)
     cc_next = method(facts, T_ITER, CC, "next")
-    cc_read = roles.inherent(facts, CC, "read")
+    import parser_rules as _PRS
+    cc_read = facts.fn(_PRS.pmodel(facts).read_def)      # the head reader, bound by role (what next() calls to obtain a Request)
     n_sites = 0
     for f in (fns or [cc_next, cc_read]):
         inst = None if getattr(f, "is_inlined", False) else facts.mono_instance(f.id)
@@ -1103,3 +1104,97 @@ def boxed_body_readers(facts):
                     work.append(to)
     facts._boxed_readers = out
     return out
+
+
+def printers(facts):
+    """the functions that print a Response: the methods of Response that consume it and reach the head writer (the public `raw_print` and any
+    crate-internal entry it delegates to or is reached through)"""
+    if hasattr(facts, "_printers"):
+        return facts._printers
+    import response_rules as RSP
+    M = RSP.resp_model(facts)
+    hw = M.head_writer.id
+    memo = {}
+    def reaches(fid, seen=()):
+        if fid == hw:
+            return True
+        if fid in memo:
+            return memo[fid]
+        if fid in seen:
+            return False
+        g = facts.fns.get(fid)
+        r = False
+        if g is not None and g.rec.get("local") and g.file == M.file:
+            for bb, t in g.calls():
+                c = call_name(t)
+                if c in facts.local_fns and reaches(c, seen + (fid,)):
+                    r = True
+                    break
+        memo[fid] = r
+        return r
+    out = sorted(k for k, g in facts.local_fns.items() if g.rec.get("impl_self_adt") == RESP and g.rec.get("impl_trait") is None and "{closure" not in k
+                 and g.argc >= 2 and g.local_ty(1).startswith(RESP) and reaches(k))
+    facts._printers = out
+    return out
+
+
+def printer_rx(facts):
+    ps = printers(facts)
+    return "(" + "|".join(re.escape(p) for p in ps) + ")$" if ps else r"response::Response::<R>::raw_print$"
+
+
+def print_call_args(facts, state, e):
+    """the arguments of a print event by role, whatever entry point was called and however they are bundled:
+    {'writer': term, 'version': term, 'headers': term, 'suppress': term (the do-not-send-body flag), 'upgrade': term}"""
+    import absint
+    callee = facts.fns.get(e[2])
+    args = [absint.deep(state, a) for a in e[3]]
+    out = {}
+    if callee is None:
+        return out
+    def put(ty, v):
+        if ty == "bool":
+            out.setdefault("suppress", v)
+        elif HV in ty:
+            out.setdefault("version", v)
+        elif "common::Header" in ty:
+            out.setdefault("headers", v)
+        elif ty.startswith("std::option::Option<&") or "Option<&str>" in ty:
+            out.setdefault("upgrade", v)
+        elif ty == "W" or "dyn std::io::Write" in ty:
+            out.setdefault("writer", v)
+    for i, v in enumerate(args):
+        if i == 0:
+            continue
+        ty = callee.local_ty(i + 1)
+        a = facts.adts.get(re.sub(r"<.*$", "", ty.lstrip("&")))
+        if a is not None and a["kind"] == "Struct" and not ty.startswith("std::") and v and v[0] == "agg":
+            for fl in a["variants"][0]["fields"]:
+                put(fl["ty"], v[3].get(fl["name"], ("unknown",)))
+        elif a is not None and a["kind"] == "Struct" and not ty.startswith("std::") and v and v[0] == "call":
+            # the bundle was built by a constructor function of another module (`PrintContext::bare(version)`): what can still be told
+            # is which version went in
+            for x in absint.walk_terms(v):
+                if x and x[0] == "agg" and x[1] == HV:
+                    out.setdefault("version", x)
+                elif x and x[0] == "init" and False:
+                    pass
+            if "version" not in out:
+                for x in v[2]:
+                    out.setdefault("version", x)
+                    break
+        else:
+            put(ty, v)
+    return out
+
+
+def private_to(facts, root_id, fid, seen=()):
+    """is `fid` the function `root_id` itself, one of its closures, or a helper that is called from nowhere else (transitively)?"""
+    if fid == root_id or fid.startswith(root_id + "::{closure"):
+        return True
+    if fid in seen:
+        return False
+    if "{closure" in fid:
+        return private_to(facts, root_id, re.sub(r"::\{closure#\d+\}$", "", fid), seen + (fid,))
+    callers = facts.callers_of(fid)
+    return bool(callers) and all(private_to(facts, root_id, h.id, seen + (fid,)) for h, b2, t2 in callers)
